@@ -1,6 +1,7 @@
 package main
 
 import (
+	"go/constant"
 	"strconv"
 	"fmt"
 	"go/token"
@@ -1668,6 +1669,153 @@ func methodsNamed(P *Program, name string, nargs int) []*ssa.Function {
 		if f.Signature.Recv() != nil && f.Name() == name && f.Signature.Params().Len() == nargs && len(f.Blocks) > 0 {
 			out = append(out, f)
 		}
+	}
+	return out
+}
+
+// ---------------------------------------------------------------- contents of tables filled by package initialisation
+//   //@ table <global map> <property> key=value key=value ...
+// The map the package initialiser stores into the global holds exactly these entries: a key is the *name* of the atom
+// (the string the key's atom variable is initialised with by NewAtom), a value the name of a function or of a constant
+// of the package. Decided on the SSA of the initialiser; together with the write-once obligation on the global (C14)
+// this fixes the table for the whole run.
+
+func init() { structuralChecks = append(structuralChecks, checkTables) }
+
+func checkTables(P *Program, prop string) []StructResult {
+	var out []StructResult
+	for _, d := range P.Tables {
+		f := strings.Fields(d.Attr)
+		if len(f) < 2 || f[0] != prop {
+			continue
+		}
+		res := StructResult{Name: "table:" + d.Name, OK: true}
+		want := map[string]string{}
+		for _, kv := range f[1:] {
+			i := strings.LastIndex(kv, "=")
+			if i <= 0 {
+				res.OK, res.Detail = false, "bad entry "+kv
+				continue
+			}
+			k := strings.Trim(kv[:i], "\"")
+			k = strings.ReplaceAll(k, "\\\\", "\\")
+			want[k] = kv[i+1:]
+		}
+		var g *ssa.Global
+		var pkg *ssa.Package
+		for _, path := range []string{enginePath, rootPath} {
+			if m, ok := P.Pkgs[path].Members[d.Name].(*ssa.Global); ok {
+				g, pkg = m, P.Pkgs[path]
+			}
+		}
+		if g == nil {
+			res.OK, res.Detail = false, "no such package-level variable"
+			out = append(out, res)
+			continue
+		}
+		initFn := pkg.Func("init")
+		// the atom variables' names: atomX = NewAtom("...")
+		atomName := map[*ssa.Global]string{}
+		var mk ssa.Value
+		for _, b := range initFn.Blocks {
+			for _, in := range b.Instrs {
+				st, ok := in.(*ssa.Store)
+				if !ok {
+					continue
+				}
+				gl, ok := st.Addr.(*ssa.Global)
+				if !ok {
+					continue
+				}
+				if gl == g {
+					mk = st.Val
+				}
+				if call, ok := st.Val.(*ssa.Call); ok {
+					if callee := call.Call.StaticCallee(); callee != nil && callee.Name() == "NewAtom" && len(call.Call.Args) == 1 {
+						if c, ok := call.Call.Args[0].(*ssa.Const); ok && c.Value != nil {
+							atomName[gl] = constant.StringVal(c.Value)
+						}
+					}
+				}
+			}
+		}
+		if mk == nil {
+			res.OK, res.Detail = false, "the initialiser does not store a map into it"
+			out = append(out, res)
+			continue
+		}
+		got := map[string]string{}
+		var bad []string
+		for _, b := range initFn.Blocks {
+			for _, in := range b.Instrs {
+				mu, ok := in.(*ssa.MapUpdate)
+				if !ok || mu.Map != mk {
+					continue
+				}
+				key := "?"
+				if u, ok := mu.Key.(*ssa.UnOp); ok && u.Op == token.MUL {
+					if gl, ok := u.X.(*ssa.Global); ok {
+						if n, ok := atomName[gl]; ok {
+							key = n
+						} else {
+							key = "?" + gl.Name()
+						}
+					}
+				}
+				val := "?"
+				v := mu.Value
+				for {
+					if ct, ok := v.(*ssa.ChangeType); ok {
+						v = ct.X
+						continue
+					}
+					if mi, ok := v.(*ssa.MakeInterface); ok {
+						v = mi.X
+						continue
+					}
+					break
+				}
+				switch x := v.(type) {
+				case *ssa.Function:
+					val = x.Name()
+				case *ssa.Const:
+					// a named constant of the package with that value and type
+					val = x.Value.ExactString()
+					for _, n := range pkg.Pkg.Scope().Names() {
+						if c, ok := pkg.Pkg.Scope().Lookup(n).(*types.Const); ok && types.Identical(c.Type(), x.Type()) && constant.Compare(c.Val(), token.EQL, x.Value) {
+							if w, ok := want[key]; ok && w == n {
+								val = n
+							} else if val == x.Value.ExactString() {
+								val = n
+							}
+						}
+					}
+				}
+				if _, dup := got[key]; dup {
+					bad = append(bad, "two entries for "+key)
+				}
+				got[key] = val
+			}
+		}
+		for k, w := range want {
+			if gv, ok := got[k]; !ok {
+				bad = append(bad, fmt.Sprintf("no entry for %q", k))
+			} else if gv != w {
+				bad = append(bad, fmt.Sprintf("%q is %s, not %s", k, gv, w))
+			}
+		}
+		for k, gv := range got {
+			if _, ok := want[k]; !ok {
+				bad = append(bad, fmt.Sprintf("unexpected entry %q = %s", k, gv))
+			}
+		}
+		if len(bad) > 0 {
+			sort.Strings(bad)
+			res.OK, res.Detail = false, strings.Join(bad, "; ")
+		} else if res.OK {
+			res.Detail = fmt.Sprintf("%d entries, as declared", len(got))
+		}
+		out = append(out, res)
 	}
 	return out
 }
